@@ -385,7 +385,13 @@ pub fn cli_conformance_raw(
         return (rr, out, None);
     }
     if let Some(a) = out.abnormal() {
-        let r = Some(("exit".to_string(), "normal termination (exit status 0)".to_string(), format!("{}: {}", a, out.summary())));
+        // replayed once before it is believed
+        let again = run_cli(src, stdin_raw, &o);
+        let r = if again.abnormal().is_some() {
+            Some(("exit".to_string(), "normal termination (exit status 0)".to_string(), format!("{}: {}", a, out.summary())))
+        } else {
+            Some(("unstable-output".to_string(), "the same outcome on every run of the same source and input".to_string(), format!("first run: {}: {} | the replay ended normally", a, out.summary())))
+        };
         return (rr, out, r);
     }
     let res = {
@@ -395,6 +401,19 @@ pub fn cli_conformance_raw(
             Err(e) => Some((e.field, e.expected, format!("event #{} of {:?}; {}", e.event_index, rr.events.len(), e.got))),
         }
     };
+    // a mismatch is believed only if the same case shows it again: the case is replayed once, and a replay
+    // that behaves differently is reported as what it is (the same source and input, two different outputs)
+    if res.is_some() {
+        let again = run_cli(src, stdin_raw, &o);
+        if again.stdout != out.stdout || again.abnormal().is_some() != out.abnormal().is_some() {
+            let r = Some((
+                "unstable-output".to_string(),
+                "the same output on every run of the same source and input".to_string(),
+                format!("two runs differ; first: {} | second: {}", clip_text(&out.out(), 600), clip_text(&again.out(), 600)),
+            ));
+            return (rr, out, r);
+        }
+    }
     (rr, out, res)
 }
 
